@@ -29,11 +29,16 @@ def child_main(spec_json: str, backend: str, mw: str, storage_dir: str):
     import labtech
     from .spec import Built
     d = json.loads(spec_json)
-    spec = mk_spec(d['deps'], types=d['types'])
-    built = Built(spec)
-    lab = labtech.Lab(storage=storage_dir, runner_backend=backend, max_workers=(None if mw == 'None' else int(mw)), notebook=False)
-    res = lab.run_tasks(list(built.canon), disable_progress=True, disable_top=True)
-    print(json.dumps({'returned': len(res)}))
+    phases = d['phases'] if 'phases' in d else [{'deps': d['deps'], 'types': d['types'], 'mw': mw, 'labels': None}]
+    total = 0
+    for ph in phases:
+        spec = mk_spec(ph['deps'], types=ph['types'], labels=ph.get('labels'))
+        built = Built(spec)
+        m = ph['mw']
+        lab = labtech.Lab(storage=storage_dir, runner_backend=backend, max_workers=(None if m in (None, 'None') else int(m)), notebook=False)
+        res = lab.run_tasks(list(built.canon), disable_progress=True, disable_top=True)
+        total += len(res)
+    print(json.dumps({'returned': total}))
 
 
 def read_world(wf):
@@ -57,6 +62,8 @@ def read_world(wf):
 
 
 def barrier_case(args):
+    if args[0] == 'sequence':
+        return barrier_sequence_case(args)
     deps, types, backend, mw, order = args
     silence_labtech()
     spec = mk_spec(deps, types=types)
@@ -170,6 +177,84 @@ def barrier_case(args):
         shutil.rmtree(tmp, ignore_errors=True)
 
 
+def barrier_sequence_case(args):
+    """Several Labs with different max_workers used one after the other in ONE caller process
+    (same backend): each run must respect its own limit."""
+    _, backend, mws = args
+    silence_labtech()
+    n = 4
+    phases = [{'deps': [[] for _ in range(n)], 'types': ['TA'] * n, 'mw': mw, 'labels': [100 * i + j for j in range(n)]} for i, mw in enumerate(mws)]
+    tmp = tempfile.mkdtemp(prefix='e4bs_')
+    bd = os.path.join(tmp, 'barrier')
+    os.makedirs(bd)
+    wf = os.path.join(tmp, 'world.log')
+    open(wf, 'w').close()
+    viols = []
+    d = f'[real {backend} backend] Labs with max_workers={list(mws)} used one after the other in one process'
+    proc = subprocess.Popen([sys.executable, '-m', 'verif_lt.e4b', json.dumps({'phases': phases}), backend, 'x', os.path.join(tmp, 'st')],
+                            env=py_env(3, VERIF_WORLD_FILE=wf, VERIF_BARRIER_DIR=bd, VERIF_EPOCH=1),
+                            stdout=open(os.path.join(tmp, 'out'), 'wb'), stderr=open(os.path.join(tmp, 'err'), 'wb'),
+                            stdin=subprocess.DEVNULL, start_new_session=True)
+    max_inside = rest_points = 0
+    released = []
+    try:
+        for i, mw in enumerate(mws):
+            labels = set(phases[i]['labels'])
+            done = 0
+            while done < n:
+                want = min(mw, n - done)
+                deadline = time.monotonic() + 30
+                reached = False
+                inside = []
+                while time.monotonic() < deadline:
+                    _, blocked, ended = read_world(wf)
+                    inside = [k for k in blocked if k[1] in labels and k not in set(ended)]
+                    max_inside = max(max_inside, len(inside))
+                    if len(inside) > mw:
+                        viols.append(('C04', f'{backend}:real-sequence-max-workers', f'{d}: run #{i + 1} (max_workers={mw}) has {len(inside)} tasks inside run() at once'))
+                        return {'viols': viols, 'max_inside': max_inside, 'rest_points': rest_points, 'released': released}
+                    if len(inside) >= want:
+                        reached = True
+                        break
+                    if proc.poll() is not None:
+                        break
+                    time.sleep(0.01)
+                if not reached:
+                    if proc.poll() is not None:
+                        raise HarnessError(f'barrier sequence child exited early: {open(os.path.join(tmp, "err")).read()[-500:]}')
+                    viols.append(('C05', f'{backend}:real-sequence-rest-below-capacity', f'{d}: run #{i + 1} (max_workers={mw}) keeps only {len(inside)} tasks inside run(), expected {want}'))
+                    return {'viols': viols, 'max_inside': max_inside, 'rest_points': rest_points, 'released': released}
+                rest_points += 1
+                time.sleep(0.05)
+                _, blocked, ended = read_world(wf)
+                inside = [k for k in blocked if k[1] in labels and k not in set(ended)]
+                if len(inside) > mw:
+                    viols.append(('C04', f'{backend}:real-sequence-max-workers', f'{d}: run #{i + 1} (max_workers={mw}) has {len(inside)} tasks inside run() at rest'))
+                    return {'viols': viols, 'max_inside': max_inside, 'rest_points': rest_points, 'released': released}
+                k = sorted(inside, key=lambda kk: kk[1])[0]
+                released.append(k)
+                open(os.path.join(bd, f'go_{k[1]}'), 'w').close()
+                dl = time.monotonic() + 30
+                while time.monotonic() < dl and k not in set(read_world(wf)[2]):
+                    time.sleep(0.005)
+                done += 1
+        try:
+            proc.wait(timeout=60)
+        except subprocess.TimeoutExpired:
+            viols.append(('C11', f'{backend}:real-barrier-run-timeout', f'{d}: did not finish'))
+        return {'viols': viols, 'max_inside': max_inside, 'rest_points': rest_points, 'released': released}
+    finally:
+        try:
+            os.killpg(proc.pid, signal.SIGKILL)
+        except (ProcessLookupError, PermissionError):
+            pass
+        try:
+            proc.wait(timeout=10)
+        except Exception:  # noqa
+            pass
+        shutil.rmtree(tmp, ignore_errors=True)
+
+
 def cases(tier: str):
     out = []
     ind5 = ((),) * 5
@@ -187,6 +272,9 @@ def cases(tier: str):
     big = ((),) * (ncpu + 3)
     for be in ('fork', 'spawn'):
         out.append((big, ('TA',) * (ncpu + 3), be, None, 'asc'))
+        out.append(('sequence', be, (3, 1, 2)))
+    # an explicit max_workers above the number of cores must be honoured too
+    out.append((((),) * (ncpu + 2), ('TA',) * (ncpu + 2), 'fork', ncpu + 2, 'asc'))
     return out
 
 
